@@ -96,6 +96,11 @@ fn run_churn(deny_focus: bool, full: bool) -> SimResult {
     }
     let n = 2 + choose(4);
     note_val("nodes", n as u64);
+    if !full && profile() != Profile::None && choose(3) == 0 {
+        // identity faults: now and then the stub handshake authenticates a connection as another peer or as the local
+        // peer, so that dials also end in WrongPeerId / LocalPeerId inside the churn
+        net::with_net(|nn| nn.auth_fault_permille = [30, 100][choose(2)]);
+    }
     let (dslot, dpoint) = (choose(3), choose(4));
     if deny_focus {
         note_val("deny_slot_point", (dslot * 4 + dpoint) as u64);
